@@ -291,6 +291,14 @@ class _Interp:
                 body_env = self._block(st.body, dict(env))
                 if body_env is not None:
                     env = {k: min(env.get(k, SAFE), body_env.get(k, SAFE)) for k in set(env) | set(body_env)}
+                if isinstance(st, ast.Try):
+                    # handlers / else / finally can return (or rebind) as well: `except KeyError: return value`
+                    for blk in [h.body for h in st.handlers] + [st.orelse, st.finalbody]:
+                        if not blk:
+                            continue
+                        e2 = self._block(blk, dict(env))
+                        if e2 is not None:
+                            env = {k: min(env.get(k, SAFE), e2.get(k, SAFE)) for k in set(env) | set(e2)}
         return env
 
 
@@ -515,6 +523,35 @@ def _is_backslash_doubling(cc: ast.Call) -> bool:
         and cc.args[0].value == "\\" and isinstance(cc.args[1], ast.Constant) and cc.args[1].value == "\\\\"
 
 
+def _doubling_receiver(ctx, f: FuncInfo, cc: ast.Call) -> Optional[ast.expr]:
+    """The text whose backslashes `cc` doubles: the receiver of `X.replace("\\", "\\\\")`, or the argument of a
+    helper (method of the compiler / module-level function) with one text parameter all of whose returns are that
+    parameter with its backslashes doubled.  None: not a doubling."""
+    if _is_backslash_doubling(cc):
+        return cc.func.value
+    tgt, skip = None, 0
+    if isinstance(cc.func, ast.Attribute) and isinstance(cc.func.value, ast.Name) and cc.func.value.id in ("self", "cls") \
+            and f.cls is not None:
+        tgt = ctx.index.resolve_method(f.cls, cc.func.attr)
+        skip = 0 if tgt is not None and any("staticmethod" in d for d in tgt.decorators) else 1
+    elif isinstance(cc.func, ast.Name):
+        r = ctx.index.resolve(f.module, cc.func.id)
+        tgt = r if isinstance(r, FuncInfo) and r.cls is None else None
+    if tgt is None or tgt.node is f.node or len(cc.args) != 1 or cc.keywords:
+        return None
+    params = [a.arg for a in tgt.node.args.posonlyargs + tgt.node.args.args][skip:]
+    rets = returns_of(tgt.node)
+    if len(params) != 1 or not rets:
+        return None
+    for r in rets:
+        v = r.value
+        if not (isinstance(v, ast.Call) and _is_backslash_doubling(v) and isinstance(v.func.value, ast.Name) and v.func.value.id == params[0]):
+            return None
+    if any(n == params[0] for n, _v, _st in name_stores(tgt.node)):
+        return None
+    return cc.args[0]
+
+
 def _check_backslash_override(ctx, f: FuncInfo) -> Tuple[bool, str, Optional[List[str]]]:
     """`render_literal_value` of a dialect with backslash escapes.  Necessary clauses:
       (a) every path that obtains the generic rendering from super() reaches the normal exit through the
@@ -529,8 +566,11 @@ def _check_backslash_override(ctx, f: FuncInfo) -> Tuple[bool, str, Optional[Lis
     sup = g.find_calls("render_literal_value")
     sup = [s for s in sup if any((call_name(c) or "").startswith("super().") for part in own_exprs(g.nodes[s].stmt)
                                  for c in calls_in(part))] if sup else []
+    def doubled(cc):
+        return _doubling_receiver(ctx, f, cc)
+
     rep = [n.id for n in g.nodes if n.stmt is not None and isinstance(n.stmt, ast.stmt) and n.kind == "stmt" and any(
-        _is_backslash_doubling(cc) for part in own_exprs(n.stmt) for cc in calls_in(part))]
+        doubled(cc) is not None for part in own_exprs(n.stmt) for cc in calls_in(part))]
     if not sup:
         return False, "does not call super().render_literal_value()", None
     if not rep:
@@ -542,8 +582,8 @@ def _check_backslash_override(ctx, f: FuncInfo) -> Tuple[bool, str, Optional[Lis
         st = g.nodes[r].stmt
         for part in own_exprs(st):
             for cc in calls_in(part):
-                if _is_backslash_doubling(cc):
-                    rv = cc.func.value
+                if doubled(cc) is not None:
+                    rv = doubled(cc)
                     if isinstance(rv, ast.Name):
                         recv_names.add(rv.id)
                     elif not (isinstance(rv, ast.Call) and (call_name(rv) or "").startswith("super().")):
@@ -580,8 +620,10 @@ def _check_backslash_override(ctx, f: FuncInfo) -> Tuple[bool, str, Optional[Lis
         for v, st in stores:
             from_super = isinstance(v, ast.Call) and (call_name(v) or "").startswith("super().") and \
                 (call_name(v) or "").endswith("render_literal_value")
-            from_self = isinstance(v, ast.Call) and isinstance(v.func, ast.Attribute) and isinstance(v.func.value, ast.Name) \
-                and v.func.value.id in recv_names and v.func.attr == "replace"
+            rv_ = doubled(v) if isinstance(v, ast.Call) else None
+            from_self = (isinstance(v, ast.Call) and isinstance(v.func, ast.Attribute) and isinstance(v.func.value, ast.Name)
+                         and v.func.value.id in recv_names and v.func.attr == "replace") or \
+                (isinstance(rv_, ast.Name) and rv_.id in recv_names)
             if not (from_super or from_self):
                 return False, (f"backslash doubling is applied to `{nm}`, which is also bound to `{unparse(v)[:50] if v is not None else '?'}` "
                                f"(not the text rendered by super())"), None
@@ -1161,3 +1203,15 @@ R.mutant("rlv-null-by-helper-for-evaluates-none", "sql/compiler.py", chain(
         "        is_null = value is None\n        if is_null:\n            return self._render_null_keyword()\n"),
     sub("    def _truncate_bindparam(self, bindparam):\n",
         "    def _render_null_keyword(self):\n        return self.process(elements.Null._instance())\n\n    def _truncate_bindparam(self, bindparam):\n")), "C05-R4")
+
+# -- R2 backslashes: the doubling extracted into a helper method
+R.mutant("benign-mysql-doubling-in-a-helper-method", MY, sub(
+    _MY_OLD,
+    "        rendered = super().render_literal_value(value, type_)\n        if self.dialect._backslash_escapes:\n"
+    "            rendered = self._double_backslashes(rendered)\n        return rendered\n\n"
+    "    @staticmethod\n    def _double_backslashes(text):\n        return text.replace(\"\\\\\", \"\\\\\\\\\")\n\n    # override native_boolean"), None)
+R.mutant("mysql-helper-doubles-the-python-value", MY, sub(
+    _MY_OLD,
+    "        rendered = super().render_literal_value(value, type_)\n        if self.dialect._backslash_escapes and value is not None:\n"
+    "            value = self._double_backslashes(value)\n        return rendered\n\n"
+    "    @staticmethod\n    def _double_backslashes(text):\n        return text.replace(\"\\\\\", \"\\\\\\\\\")\n\n    # override native_boolean"), "C05-R2")
